@@ -129,10 +129,11 @@ class Bits:
   def __getitem__( self, idx ):
 
     if isinstance( idx, slice ):
-      if idx.step:
+      if idx.step is not None:
         raise IndexError( "Index cannot contain step" )
       try:
-        start, stop = int(idx.start or 0), int(idx.stop or self._nbits)
+        start = int(idx.start or 0)
+        stop  = self._nbits if idx.stop is None else int(idx.stop)
         assert 0 <= start < stop <= self._nbits
       except:
         raise IndexError( f"Invalid access: [{idx.start}:{idx.stop}] in a Bits{self._nbits} instance" )
@@ -152,10 +153,11 @@ class Bits:
     sv = int(self._uint)
 
     if isinstance( idx, slice ):
-      if idx.step:
+      if idx.step is not None:
         raise IndexError( "Index cannot contain step" )
       try:
-        start, stop = int(idx.start or 0), int(idx.stop or self._nbits)
+        start = int(idx.start or 0)
+        stop  = self._nbits if idx.stop is None else int(idx.stop)
         assert 0 <= start < stop <= self._nbits
       except:
         raise IndexError( f"Invalid access: [{idx.start}:{idx.stop}] in a Bits{self._nbits} instance" )
